@@ -86,3 +86,20 @@ Definition h_svf_fun : list rop := [New PV nat CV KSvf 0 (PkFun PV 0 false); Cal
 Definition x_data : rop := DataSet PV nat CV 0 (qv 3 3, 0) false.
 Definition x_cond : rop := CondSet PV nat CV 0 (5, 0).
 Definition x_obs : rop := TensorOf PV nat CV 0.
+
+(* composite witness: the call of a SequentialTransform returns what its members hold *)
+Fixpoint tags_match (s : rstate) (l : list (tag PV nat)) (ms : list nat) : bool :=
+  match l, ms with
+  | [], [] => true
+  | t :: l', m :: ms' => match x_held s m with Some t' => negb (tag_differs t t') && tags_match s l' ms' | None => false end
+  | _, _ => false
+  end.
+Definition seq_fresh_after (cf : cfg) (h : list rop) (o : nat) : bool :=
+  let s := x_run cf h in
+  match snd (x_step cf s (Call PV nat CV o)), get_obj PV nat CV s o with
+  | Out _ _ l _, Some ob => negb (Nat.eqb (length l) 0) && tags_match s l (o_members PV nat CV ob)
+  | _, _ => false
+  end.
+Definition h_seq : list rop :=
+  [New PV nat CV KSvf 0 (PkFun PV 0 false); New PV nat CV KDisp 0 (PkTen PV (qv 1 (-2), 0) false);
+   NewSeq PV nat CV [0; 1; 0]; Call PV nat CV 2; Edit PV nat CV 1 (qv 5 7, 0); CondSet PV nat CV 2 (3, 0)].
